@@ -57,3 +57,29 @@ def base_tuples(mn, n=3):
 def words_of(out, size):
     fmt = '<%d%s' % (len(out) // size, 'H' if size == 2 else 'I')
     return struct.unpack(fmt, out)
+
+
+_WARM = {}
+
+
+def warm(asm):
+    """put the interpreter into a USED state before a task: every one of the 93 encoders is called once with a legal tuple and one program holding every mnemonic is
+    assembled in both modes.  An encoder or a table that keeps state from call to call (a shared constraint list that grows, a cache keyed too coarsely) then shows in
+    whatever the task enumerates, independently of the order in which tasks happen to reach a worker.  Failures here are ignored: the sweeps themselves judge."""
+    if 'lines' not in _WARM:
+        lines = []
+        for mn in isa.ALL:
+            for ops in base_tuples(mn, 2):
+                lines.append((mn, ops, isa.render(mn, ops)))
+        _WARM['lines'] = lines
+    for mn, ops, line in _WARM['lines']:
+        try:
+            call(asm, mn, ops)
+        except Exception:
+            pass
+    text = '\n'.join(l for m, o, l in _WARM['lines']) + '\n'
+    for comp in (False, True):
+        try:
+            asm.assemble(text, compress=comp)
+        except Exception:
+            pass
